@@ -1,5 +1,7 @@
 package main
 
+import "golang.org/x/tools/go/ssa"
+
 func init() { props["C04"] = c04 }
 
 func c04(r *Report) propMeta {
@@ -169,6 +171,11 @@ func c04(r *Report) propMeta {
 	r.Rule("C04.R8", "E15 wire fields validated by their own type")
 	r.WireFieldsValidated("wire", "x/tss/types", []string{"MsgSubmitDKGRound1", "MsgSubmitDKGRound2", "MsgComplain", "MsgConfirm"}, 7)
 
+	r.Rule("C04.R10", "E17 the only reasons share decryption can fail")
+	r.ErrorCensusOf("decrypt-failures", []*ssa.Function{w.Fn("pkg/tss.DecryptSecretShare")}, c04DecryptErrs, 3,
+		"share decryption in a complaint fails only for a malformed ciphertext or a failing AES primitive - never because of the decrypted VALUE",
+		"makes DecryptSecretShare fail", "VerifyComplaint reports a failed complaint, so the complainant of a genuinely bad share is blamed instead of the dealer")
+
 	r.Rule("C04.R9", "E18 fixed-width wire encodings of pkg/tss values")
 	r.FixedWidth("one-encoding", []fixedWidth{
 		{"pkg/tss.Point.publicKey", "p", "const:33", "tss.Point (compressed secp256k1 point)"},
@@ -190,8 +197,16 @@ func c04(r *Report) propMeta {
 			"R7 every KV-store Get/Has/Delete of x/tss uses a key builder of x/tss/types that some Set of the module also uses (a probe of an iteration prefix or of a sibling family is always-empty state)",
 			"R8 every pkg/tss-typed field of the four DKG messages (commits, one-time key, both proofs, encrypted shares, key-sym, complaint signature, own-key signature) reaches its own type's Validate() from ValidateBasic",
 			"R9 every pkg/tss byte type has exactly one accepted length (Point 33 - compressed only, finding F6 -, Scalar 32, EncSecretShare 48, Signature 65, ComplaintSignature 98): the raw bytes are hashed, a second encoding of the same value would change challenges and symmetric keys",
+			"R10 the errors DecryptSecretShare can return originate only from the ciphertext length check and the AES/HKDF primitives (error-origin census): a value-dependent rejection of the plaintext would turn a complaint about a deliberately out-of-range share into a FAILED complaint (seed C04-5)",
 		},
 		Undecided: []string{"that consistent commitments imply a shared key any threshold subset can use (algebra)", "'an honest member is never marked malicious' (needs the algebra behind R3)", "expiry interleavings"},
 		Assume:    []string{"secp256k1 / elgamal / schnorr primitives of pkg/tss", "msg handlers atomic"},
 	}
+}
+
+var c04DecryptErrs = []errAllow{
+	{"pkg/tss.EncSecretShare.Validate", "fresh:Errorf", "ciphertext is not 48 bytes (already refused by ValidateBasic of MsgSubmitDKGRound2)"},
+	{"pkg/tss.DecryptHKDF", "fresh:Errorf", "AES key is not 32 bytes: it is tss.Hash(keySym), always 32"},
+	{"pkg/tss.DecryptHKDF", "external:io.ReadFull", "HKDF-SHA512 yields 32 bytes for any input"},
+	{"pkg/tss.DecryptHKDF", "external:crypto/aes.NewCipher", "key length is the constant 32"},
 }
